@@ -9,6 +9,7 @@ package c08
 // TarsGo's own writer and are annotated by walking the TLV structure.
 
 import (
+	"bytes"
 	"encoding/binary"
 	"fmt"
 	"strings"
@@ -269,12 +270,16 @@ func tarsInt(b []byte, off int, f *Frame, name string) (val int, next int, field
 	panic("c08: unexpected tars size type")
 }
 
-func tarsFrame(name string, w interface{ WriteTo(*codec.Buffer) error }) Frame {
+func tarsBody(w interface{ WriteTo(*codec.Buffer) error }) []byte {
 	wb := codec.NewBuffer()
 	if err := w.WriteTo(wb); err != nil {
 		panic(err)
 	}
-	body := wb.ToBytes()
+	return append([]byte(nil), wb.ToBytes()...)
+}
+
+// tarsAnnotate prefixes the packet length and locates the length fields by walking the TLV structure.
+func tarsAnnotate(name string, body []byte) Frame {
 	b := make([]byte, 4, 4+len(body))
 	binary.BigEndian.PutUint32(b, uint32(4+len(body)))
 	b = append(b, body...)
@@ -285,6 +290,33 @@ func tarsFrame(name string, w interface{ WriteTo(*codec.Buffer) error }) Frame {
 	}
 	f.Blocks = append(f.Blocks, Block{Name: "packet", End: len(b), Lens: []int{0}})
 	return f
+}
+
+func tarsFrame(name string, w interface{ WriteTo(*codec.Buffer) error }) Frame {
+	return tarsAnnotate(name, tarsBody(w))
+}
+
+// tarsWideVector re-encodes the sBuffer field (vector<byte>, tag 7 of RequestPacket, tag 6 of ResponsePacket) of a canonical body in the
+// two other forms a tars peer may legally send and TarsGo's reader accepts: SIMPLE_LIST with the length as
+// a 4-byte INT, and LIST of BYTE elements with the length as a 4-byte INT.
+func tarsWideVector(body []byte, tag byte, asList bool) []byte {
+	i := bytes.Index(body, []byte{tag<<4 | 0x0d, 0x00, 0x00}) // SIMPLE_LIST, head BYTE, length as BYTE (tag 0)
+	if i < 0 {
+		panic("c08: canonical sBuffer not found")
+	}
+	n := int(body[i+3])
+	data := body[i+4 : i+4+n]
+	out := append([]byte(nil), body[:i]...)
+	if asList {
+		out = append(out, tag<<4|0x09, 0x02, 0, 0, 0, byte(n)) // LIST, length INT
+		for _, d := range data {
+			out = append(out, 0x00, d) // element: tag 0 BYTE
+		}
+	} else {
+		out = append(out, tag<<4|0x0d, 0x00, 0x02, 0, 0, 0, byte(n)) // SIMPLE_LIST, head BYTE, length INT
+		out = append(out, data...)
+	}
+	return append(out, body[i+4+n:]...)
 }
 
 func TarsFrames() []Frame {
@@ -298,5 +330,11 @@ func TarsFrames() []Frame {
 		tarsFrame("response", &requestf.ResponsePacket{IVersion: 1, IRequestId: 0x01020304, IRet: 0, SBuffer: []int8{9, 8, 7}, SResultDesc: "ok",
 			Status: map[string]string{"s": "t"}, Context: map[string]string{"k": "v"}}),
 		tarsFrame("one-way", &requestf.RequestPacket{IVersion: 1, CPacketType: 1, IRequestId: 0, SServantName: "s", SFuncName: "f"}),
+		tarsAnnotate("request, body as SIMPLE_LIST with 4-byte length", tarsWideVector(tarsBody(&requestf.RequestPacket{IVersion: 1, IRequestId: 5,
+			SServantName: "App.Svc.Obj", SFuncName: "hello", SBuffer: []int8{1, 2, 3, 4, 5}, ITimeout: 3000}), 7, false)),
+		tarsAnnotate("request, body as LIST of bytes with 4-byte length", tarsWideVector(tarsBody(&requestf.RequestPacket{IVersion: 1, IRequestId: 6,
+			SServantName: "App.Svc.Obj", SFuncName: "hello", SBuffer: []int8{1, 2, 3, 4, 5}, ITimeout: 3000}), 7, true)),
+		tarsAnnotate("response, body as SIMPLE_LIST with 4-byte length", tarsWideVector(tarsBody(&requestf.ResponsePacket{IVersion: 1, IRequestId: 7, SBuffer: []int8{9, 8, 7},
+			SResultDesc: "ok"}), 6, false)),
 	}
 }
